@@ -175,6 +175,67 @@ func allGoroutines() []gor {
 	return out
 }
 
+// allGoroutinesText is allGoroutines with each goroutine's dump text kept (for reports).
+func allGoroutinesText() []gor {
+	var out []gor
+	for k, blk := range bytes.Split(dumpAll(), []byte("\n\n")) {
+		if k == 0 || !bytes.HasPrefix(blk, []byte("goroutine ")) {
+			continue
+		}
+		nl := bytes.IndexByte(blk, '\n')
+		if nl < 0 {
+			nl = len(blk)
+		}
+		rest := strings.TrimPrefix(string(blk[:nl]), "goroutine ")
+		sp := strings.IndexByte(rest, ' ')
+		if sp < 0 {
+			continue
+		}
+		id, err := strconv.ParseInt(rest[:sp], 10, 64)
+		if err != nil {
+			continue
+		}
+		st := strings.TrimPrefix(rest[sp+1:], "[")
+		if i := strings.IndexAny(st, ",]"); i >= 0 {
+			st = st[:i]
+		}
+		out = append(out, gor{ID: id, State: st, Text: string(blk), Parked: isParked(st, blk)})
+	}
+	return out
+}
+
+// waitQuietOutside is waitQuietAll returning the goroutines outside base at the moment of quiescence.
+// Used for the gated Group-adapter cases: a Group's Pull runs Execute in a goroutine of the adapter,
+// which has no pkg/group frame between Execute's return and its send of the result - judging only the
+// goroutines "of interest" would take that moment for quiescence.
+func waitQuietOutside(base map[int64]struct{}) (gs []gor, ok bool) {
+	deadline := time.Now().Add(20 * time.Second)
+	for spin := 0; ; spin++ {
+		gs = gs[:0]
+		quiet := true
+		for _, g := range allGoroutinesText() {
+			if _, in := base[g.ID]; in {
+				continue
+			}
+			gs = append(gs, g)
+			if !g.Parked {
+				quiet = false
+			}
+		}
+		if quiet {
+			return gs, true
+		}
+		if time.Now().After(deadline) {
+			return gs, false
+		}
+		if spin < 50 {
+			runtime.Gosched()
+		} else {
+			time.Sleep(20 * time.Microsecond)
+		}
+	}
+}
+
 func goroutineIDs() map[int64]struct{} {
 	m := map[int64]struct{}{}
 	for _, g := range allGoroutines() {
